@@ -447,3 +447,115 @@ def _pos_increments(F, b, expected):
         if not ok:
             why.append('position advances without a successful read')
     return why
+
+
+def _lin(t, EDGES, POS):
+    """a usize term as base + k with base in {'len' (= edges.len()), 'pos' (= self.position), 'const'}; None when it is neither"""
+    t = deep_unwrap(t)
+    if t == POS:
+        return ('pos', 0)
+    if isinstance(t, tuple) and t:
+        if t[0] == 'const' and isinstance(t[1], str) and re.match(r'^\d+_usize$', t[1]):
+            return ('const', int(t[1].split('_')[0]))
+        if t[0] == 'call' and t[1].endswith('::len') and t[2] and term_mentions(t[2][0], lambda z: deep_unwrap(z) == EDGES if isinstance(z, tuple) else False):
+            return ('len', 0)
+        if t[0] == 'call' and t[1].endswith('::len') and t[2] and deep_unwrap(t[2][0]) == EDGES:
+            return ('len', 0)
+        if t[0] == 'f' and isinstance(t[1], tuple) and t[1] and t[1][0] == 'binop' and t[2] == '0':
+            t = t[1]
+        if t[0] == 'binop' and t[1].startswith('Add'):
+            a, b = _lin(t[2][0], EDGES, POS), _lin(t[2][1], EDGES, POS)
+            if a and b and b[0] == 'const':
+                return (a[0], a[1] + b[1])
+            if a and b and a[0] == 'const':
+                return (b[0], a[1] + b[1])
+    return None
+
+
+def path_hint(ctx, flavours):
+    """PATH-hint: the Path iterators rely on next() alone; if they override a provided Iterator method, it cannot panic for any
+    cursor value next() can produce.  next() (PATH) advances the cursor only behind a successful edges.get(position - c), so
+    position ranges over [0, len + c] with c = 0 for the edge iterator and c = 1 for the node iterator (root + one node per edge):
+    a subtraction (len + k) - (position + j) needs k >= c + j, or a comparison that guards it."""
+    F = ctx.F
+    out = []
+    from .guards import PANICKY
+    for fl in flavours:
+        pp = fl + '::node::algo::path::'
+        EDGES = ('f', ('f', P1_, '0'), '0')
+        POS = ('f', P1_, '1')
+        for im in F.impls:
+            if im['trait'] != 'std::iter::Iterator' or not im['self_q'].startswith(pp):
+                continue
+            nq = [q for q in im['items'] if q.split('::')[-1] == 'next' and q in F.bodies]
+            extra = [q for q in im['items'] if q.split('::')[-1] != 'next' and q in F.bodies]
+            if not extra:
+                out.append(Obl('PATH-hint', im['self_q'], im['span'], 'iterator defines next() only (provided methods are derived from it)', True, 'ok'))
+                continue
+            # cursor range from next(): the largest c with a read edges[position - c]
+            c = 0
+            if nq:
+                nb = F.bodies[nq[0]]
+                npv = F.prov(nb)
+                for bi, t in calls_in(nb, lambda t: callee_name(t).endswith(']::get')):
+                    it = npv.of_operand(t['args'][1])
+
+                    def scan(z):
+                        nonlocal c
+                        if isinstance(z, tuple) and z:
+                            if z[0] == 'binop' and z[1].startswith('Sub') and deep_unwrap(z[2][0]) == POS and isinstance(z[2][1], tuple) and z[2][1][0] == 'const':
+                                m = re.match(r'^(\d+)_usize$', str(z[2][1][1]))
+                                if m:
+                                    c = max(c, int(m.group(1)))
+                            if z[0] == 'call' and z[1].endswith('::saturating_sub') and len(z[2]) == 2 and deep_unwrap(z[2][0]) == POS and isinstance(z[2][1], tuple) and z[2][1][0] == 'const':
+                                m = re.match(r'^(\d+)_usize$', str(z[2][1][1]))
+                                if m:
+                                    c = max(c, int(m.group(1)))
+                            for y in z:
+                                if isinstance(y, tuple):
+                                    scan(y)
+                    scan(it)
+            for q in extra:
+                b = F.bodies[q]
+                pv, cfg = F.prov(b), F.cfg(b)
+                bad = []
+                cmp_blocks = []
+                for bi, bb in enumerate(b['blocks']):
+                    if bb['cleanup'] or bi not in cfg.reach or bb['term']['k'] != 'switch':
+                        continue
+                    d = deep_unwrap(pv.of_operand(bb['term']['op']))
+                    if isinstance(d, tuple) and d and d[0] == 'binop' and d[1] in ('Lt', 'Le', 'Gt', 'Ge', 'Eq', 'Ne'):
+                        cmp_blocks.append((bi, d))
+                for bi, bb in enumerate(b['blocks']):
+                    if bb['cleanup'] or bi not in cfg.reach:
+                        continue
+                    t = bb['term']
+                    if t['k'] == 'assert':
+                        msg = t.get('msg', '')
+                        if not re.search(r'Sub|Div|Rem|BoundsCheck|Neg', msg):
+                            continue
+                        guarded = any(cfg.dominates(cb, bi) and cb != bi for cb, _ in cmp_blocks)
+                        if guarded:
+                            continue
+                        if 'Sub' in msg:
+                            ops = None
+                            for s in bb['stmts']:
+                                if s['k'] == 'assign' and s['rv']['k'] == 'binop' and s['rv'].get('op', '').startswith('Sub'):
+                                    ops = s['rv']['ops']
+                            if ops:
+                                a_, b_ = _lin(pv.of_operand(ops[0]), EDGES, POS), _lin(pv.of_operand(ops[1]), EDGES, POS)
+                                if a_ and b_ and a_[0] == 'len' and b_[0] == 'pos' and a_[1] >= c + b_[1]:
+                                    continue
+                                if a_ and b_ and a_[0] == b_[0] and a_[1] >= b_[1]:
+                                    continue
+                                if a_ and b_ and b_[0] == 'const' and a_[0] in ('len', 'pos') and a_[1] >= b_[1]:
+                                    continue
+                                bad.append('%s - %s can underflow: position reaches edges.len() + %d @%s' % (pretty(deep_unwrap(pv.of_operand(ops[0]))), pretty(deep_unwrap(pv.of_operand(ops[1]))), c, t['sp']))
+                                continue
+                        bad.append('%s@%s' % (msg[:30], t['sp']))
+                    if t['k'] == 'call' and (PANICKY.match(callee_name(t)) or PANICKY.match(t['callee'])):
+                        if not any(cfg.dominates(cb, bi) and cb != bi for cb, _ in cmp_blocks):
+                            bad.append('%s@%s' % (callee_name(t).split('::')[-1], t['sp']))
+                out.append(Obl('PATH-hint', q, b['span'], 'overridden %s cannot panic for any cursor value next() produces (0..=len+%d)' % (q.split('::')[-1], c), not bad,
+                               'ok' if not bad else '; '.join(bad)))
+    return out
